@@ -46,6 +46,11 @@ def check(rep, ctx):
     for row in naming_rows(ctx):
         if row["construct"].endswith(":basic_name"):  # the package a definition lands in (the path half of C14-path, generator side)
             rep.check(R_GEN, row["ok"], construct=row["construct"], stmt=row["stmt"], message=row["message"], file=row["file"], line=row["line"])
+    from .. import scan as _scan
+    R_GE = rep.rule("C14-generator-errors", "the generator's driver drops no exception (a family is written completely or the run fails): no "
+                    "swallowing handler, suppress() or ignore_errors in the modules that write the schema tree", floor=2)
+    for row in _scan.swallowed_errors(ctx, ["codegen.generate_schema", "codegen.recreate_schema_path", "codegen.generate_index", "codegen.util"]):
+        rep.check(R_GE, row["ok"], construct=f"{row['module']}:{row['function']}", stmt=row["stmt"], message=row["what"], file=row["file"], line=row["line"])
     families = collections.defaultdict(dict)  # (api, type) -> version -> top class
     for mname, m in sorted(S.modules.items()):
         tops = S.top_level(m)
